@@ -7,7 +7,7 @@ class OpContract:
 
     def __init__(self, name, props, file, func, call, params, spec, cells=None, inv="True", requires=None,
                  raises=(), loops=None, sources=("source",), notes="", witness=None, spec_args=None,
-                 scheduler=None, known=None):
+                 scheduler=None, known=None, elem="val"):
         self.name = name
         self.props = props
         self.file = file
@@ -26,6 +26,7 @@ class OpContract:
         self.spec_args = spec_args
         self.scheduler = scheduler
         self.known = known
+        self.elem = elem
 
     @property
     def uid(self):
